@@ -21,20 +21,26 @@ from ..core import MachineryError, emit_behaviours, model_check, pool_map, run_p
 from ..env import Conn, LoggerStub, ServerStub, boot
 
 META = {
-    'text': 'TLC model-checks the sequencer design (steps in order, one sequence at a time, stop examined after every '
-            'call and every wait, exception ends the run with an error status, busy exactly while alive, liveness of '
-            'stop under a fair thread) and the simulated drivable (ramp without overshoot, BUSY until reached); every '
-            'behaviour TLC enumerates to the depth bound is replayed on the real SequencerMixin / SimDrivable with the '
-            'real threads under a deterministic scheduler in virtual time and the projected state compared after each '
-            'step; seeded random multi-client histories and systematically explored schedules are validated by TLC '
-            'against Trace_Sequencer / Trace_SimDrive.',
-    'note': 'Bounded: 9 step kinds (done / repeat / raise, with and without cleanup, two wait times), sequences of 1-3 '
-            'steps (1-4 in random histories), preemption only at yield points (thread start, locks, sleeps, inside step '
-            'functions), not at every source line; simulated values on a grid of binary-exact ticks. Trusted: TLC, the '
-            'deterministic scheduler, the alpha/gamma glue in harness/props/x02.py. HasOffset is a plain stored '
-            'parameter ("this is just a storage!") - only its declaration is checked.',
+    'text': 'TLC model-checks the sequencer design (steps in list order, one sequence at a time, stop flag examined '
+            'after every call and after every wait, an exception ends the run with an error status, BUSY exactly while a '
+            'sequence is alive, the thread ends after a stop / always ends under a fair thread) and the simulated '
+            'modules (ramp towards the target without overshoot, BUSY from the target change until arrival, jitter '
+            'bound, extra parameters and the HasOffset offset are plain storage); every behaviour of Gen_Sequencer to '
+            'the depth bound is replayed on the real SequencerMixin (real sequence thread under a deterministic '
+            'scheduler, virtual time) with the projected state compared after each step; every action sequence of '
+            'Gen_SimDrive is executed on the real SimDrivable / SimWritable / SimReadable and the observations are '
+            'judged by TLC; seeded random multi-client histories and enumerated schedules (bounded preemptions) are '
+            'validated by TLC against Trace_Sequencer / Trace_SimDrive.',
+    'note': 'Bounded: 9 step kinds (done / repeat / raise, with and without cleanup, two wait times), sequences of 1-2 '
+            'steps (1-4 in random histories), at most 2 runs + 1 refused start + 1-2 stops per generated behaviour; '
+            'preemption only at yield points (thread start, locks, sleeps, before and inside step functions), not at '
+            'every source line; simulated values on a grid of 1/16 with binary-exact ramps, the client acts half a '
+            'period away from the simulation thread (no races between the two are explored). Trusted: TLC, the '
+            'deterministic scheduler, the alpha/gamma glue in harness/props/x02.py. HasOffset is "just a storage": its '
+            'declaration (feature, unit, writable) and the frame condition (nothing else changes) are checked; '
+            'HasControlledBy / HasOutputModule are covered by C18.',
     'tech': 'TLA+ specs (Sequencer, SimDrive) + TLC model checking; spec->code replay of all TLC behaviours under a '
-            'deterministic scheduler; code->spec TLC trace validation of random / explored schedules',
+            'deterministic scheduler; code->spec TLC trace validation of random / enumerated schedules',
     'ref': 'growth module X02 (not one of the 20 listed properties)',
 }
 
@@ -449,7 +455,8 @@ def _run_sim(case, strategy=None):
     rate = {'ramp': 15.0, 'speed': 0.25}.get(shape)       # units per tick (1/16) -> parameter value
     rated = shape in ('ramp', 'speed')
     extra = [x for x in (shape if rated else None, 'jitter' if jit or case.get('jitpar') else None, 'xp') if x]
-    cfg = {'description': '', 'extra_params': {'value': ','.join(extra)}, 'interval': {'value': TICK},
+    sep = ' , ' if case.get('seed', 0) % 2 else ','          # SimBase strips the names
+    cfg = {'description': '', 'extra_params': {'value': sep.join(extra)}, 'interval': {'value': TICK},
            'value': {'default': case['hv'] / S16}, 'target': {'default': case['target'] / S16}}
     # extra parameters are created read-only (Parameter default) although SimBase gives them a write method:
     # a configuration that wants them changeable says so
@@ -468,7 +475,7 @@ def _run_sim(case, strategy=None):
     xpar = case.get('xpar', 'xp')
     if xpar == 'offset':
         extra.remove('xp')
-        cfg['extra_params'] = {'value': ','.join(extra)}
+        cfg['extra_params'] = {'value': sep.join(extra)}
         cfg['value']['unit'] = 'K'
     tr = [{'ev': 'init', 'shape': shape, 'hv': case['hv'], 'target': case['target'],
            'ramp': case['ramp'] if rated else 0, 'jit': jit, 'xpar': xpar}]
